@@ -196,6 +196,15 @@ class fourier_series_unknown:
 
 
 # ---- time functions on the open pieces (break points excluded on purpose)
+# PIECES[kind] = [(start, end, value(u, T, A, off))] with start/end as fractions of the period and u = (t + t0) mod T the position inside
+# the period (t0 = phi*T/(2*pi)).  The SAME table is integrated, piece by piece, by the Fourier-integral lemma (pyvc/fourier_lemma.py).
+
+PIECES = {
+    'rect': [(0, 1 / 2, lambda u, T, A, off: A + off), (1 / 2, 1, lambda u, T, A, off: -A + off)],
+    'tri': [(0, 1 / 2, lambda u, T, A, off: A * (1 - 4 * u / T) + off), (1 / 2, 1, lambda u, T, A, off: A * (-3 + 4 * u / T) + off)],
+    'saw': [(0, 1, lambda u, T, A, off: A * (2 * u / T - 1) + off)],
+}
+PIECEWISE = {'rect': pf.RectFunction, 'tri': pf.TriFunction, 'saw': pf.SawFunction}
 
 
 def _u(t, t0, T):
@@ -203,49 +212,28 @@ def _u(t, t0, T):
     return s - T * np.floor(s / T)
 
 
-@contract('CircuitCalculator.SignalProcessing.periodic_functions.RectFunction.time_function', props=['C08'])
-class rect_time:
-    def inputs(g):
-        return dict(T=g.pos('T'), A=g.real('A'), phi=g.real('phi'), off=g.real('off'), t=g.real('t'))
+def make_time(kind):
+    cls = PIECEWISE[kind]
 
-    def call(f, T, A, phi, off, t):
-        return pf.RectFunction(T, A, phi, off).time_function(t)
+    @contract('CircuitCalculator.SignalProcessing.periodic_functions.' + cls.__name__ + '.time_function', props=['C08'], name=kind + '_time')
+    class _t:
+        def inputs(g):
+            return dict(T=g.pos('T'), A=g.real('A'), phi=g.real('phi'), off=g.real('off'), t=g.real('t'))
 
-    def ensures(result, T, A, phi, off, t):
-        u = _u(t, phi * T / (2 * np.pi), T)
-        return {
-            'first half': implies(0 < u and u < T / 2, eq(result, A + off)),
-            'second half': implies(T / 2 < u and u < T, eq(result, -A + off)),
-        }
+        def call(f, T, A, phi, off, t):
+            return cls(T, A, phi, off).time_function(t)
 
-
-@contract('CircuitCalculator.SignalProcessing.periodic_functions.TriFunction.time_function', props=['C08'])
-class tri_time:
-    def inputs(g):
-        return dict(T=g.pos('T'), A=g.real('A'), phi=g.real('phi'), off=g.real('off'), t=g.real('t'))
-
-    def call(f, T, A, phi, off, t):
-        return pf.TriFunction(T, A, phi, off).time_function(t)
-
-    def ensures(result, T, A, phi, off, t):
-        u = _u(t, phi * T / (2 * np.pi), T)
-        return {
-            'falling': implies(0 < u and u < T / 2, eq(result, A * (1 - 4 * u / T) + off)),
-            'rising': implies(T / 2 < u and u < T, eq(result, A * (-3 + 4 * u / T) + off)),
-        }
+        def ensures(result, T, A, phi, off, t):
+            u = _u(t, phi * T / (2 * np.pi), T)
+            out = {}
+            for k, (lo, hi, value) in enumerate(PIECES[kind]):
+                out['piece ' + str(k) + ' of the period'] = implies(lo * T < u and u < hi * T, eq(result, value(u, T, A, off)))
+            return out
+    return _t
 
 
-@contract('CircuitCalculator.SignalProcessing.periodic_functions.SawFunction.time_function', props=['C08'])
-class saw_time:
-    def inputs(g):
-        return dict(T=g.pos('T'), A=g.real('A'), phi=g.real('phi'), off=g.real('off'), t=g.real('t'))
-
-    def call(f, T, A, phi, off, t):
-        return pf.SawFunction(T, A, phi, off).time_function(t)
-
-    def ensures(result, T, A, phi, off, t):
-        u = _u(t, phi * T / (2 * np.pi), T)
-        return {'ramp': implies(0 < u and u < T, eq(result, A * (2 * u / T - 1) + off))}
+for _k in PIECEWISE:
+    make_time(_k)
 
 
 @contract('CircuitCalculator.SignalProcessing.periodic_functions.CosFunction.time_function', props=['C08'])
